@@ -38,6 +38,8 @@ LEVEL = {
          "Exploration of interleavings: the harness owns the schedule of the lazy table initialisation and compares every thread's result with the sequential one; data races are judged by ThreadSanitizer on free-running threads. No liveness or memory-ordering claim beyond TSan's model."),
  "C14": ("metamorphic / differential relations (test vs exec vs match, shortcut vs forced-regexp compilation through hook H2, literal rewrite, self-match of escaped components) over grammar-generated patterns and derived inputs; rapidcheck + libFuzzer",
          "Exploration: no model of the pattern language is needed; the relations compare the library with itself across its execution modes and with ada::parse for the component inputs."),
+ "C15": ("three-way differential per component value: ada's canonicaliser vs ada's own URL setters (shortcut == slow path) vs RefURL with state override (the Standard), plus construction round trip, constructor-string vs init-dictionary metamorphic relation; rapidcheck + libFuzzer + enumeration of every byte per component",
+         "Exploration over literal component values with an exhaustive sweep of all 256 byte values for each of the 8 components (this is what reads the canonicalisers' character-class table)."),
  "C19": ("invariant predicate over every reachable state of setter histories; rapidcheck + libFuzzer",
          "Exploration over histories; the record invariants are evaluated after the parse and after every step on both URL types."),
 }
